@@ -433,11 +433,13 @@ def expectOp (s : HState) (src : Option LFrame) (op : String) : P (Expect × Opt
     return (.exact (copyS f dst src) false, none)
   | "apply" =>
     let is ← parseInstrs
-    return (.exact (applyS up f (fun _ => true) false is) true, some (firstFailing up f (fun _ => true) is))
+    -- callbacks must not run for the instructions AFTER the first failing one (the failing instruction's own function may
+    -- have run: an illegal destination name, for instance, is only noticed when the computed column is stored)
+    return (.exact (applyS up f (fun _ => true) false is) true, some (firstFailing up f (fun _ => true) is + 1))
   | "fapply" =>
     let c ← parseClause
     let is ← parseInstrs
-    let zf := if c.wellFormed lo f then firstFailing up f (c.sem lo f) is else 0
+    let zf := if c.wellFormed lo f then firstFailing up f (c.sem lo f) is + 1 else 0
     return (.exactAlt (filteredApplyS lo up f c is) true (filteredApplyS lo up f c is true) "KF-C06-fapply-fill", some zf)
   | "rownums" => return (.exact (rowNumsS f (← bytes)) false, none)
   | "eval" =>
@@ -756,7 +758,7 @@ def histLine (s : HState) (toks : Array String) : HState × List Msg :=
       | some z =>
         let late := (counts.drop z).filter (· > 0)
         if late.isEmpty then ({ s with cbZeroFrom := none }, [{ cls := "OK", op := "callbacks", kind := "", detail := "" }])
-        else ({ s with cbZeroFrom := none }, [{ cls := "SPEC-MISMATCH", op := "callbacks", kind := "callback", detail := s!"user callbacks ran after the frame had failed: instruction {z} is the first to fail (0 = before any), invocation counts {counts}" }])
+        else ({ s with cbZeroFrom := none }, [{ cls := "SPEC-MISMATCH", op := "callbacks", kind := "callback", detail := s!"user callbacks ran after the frame had failed: the instructions from number {z} on (0 = all: the receiver had failed already) must not call anything, invocation counts {counts}" }])
   | some "P" =>
     match runP (do let _ ← nat; checkPhys) toks 1 with
     | .ok none => (s, [{ cls := "OK", op := "wf", kind := "", detail := "" }])
